@@ -711,6 +711,45 @@ fn authenticate_message(
     }
 }
 
+#[cfg(feature = "verif")]
+impl LongTermCredentialClient {
+    pub(crate) fn verif_state(&self) -> crate::verif::VerifLongTerm {
+        let state = match &self.state {
+            LongTermCredentialState::FirstRequest => "First",
+            LongTermCredentialState::Retry(RetryCause::Unauthenticated) => "RetryUnauth",
+            LongTermCredentialState::Retry(RetryCause::StaleNonce) => "RetryStale",
+            LongTermCredentialState::SubsequentRequest => "Subsequent",
+        };
+        crate::verif::VerifLongTerm {
+            state,
+            params: self.params.as_ref().map(|p| crate::verif::VerifLongTermParams {
+                realm: p.realm.as_str().to_string(),
+                nonce: p.nonce.as_str().to_string(),
+                algorithms: p.password_algorithms.as_ref().map(|a| {
+                    a.iter()
+                        .map(|x| {
+                            (
+                                u16::from(x.algorithm()),
+                                x.parameters().map(|v| v.to_vec()).unwrap_or_default(),
+                            )
+                        })
+                        .collect()
+                }),
+                algorithm: p.password_algorithm.as_ref().map(|x| {
+                    (
+                        u16::from(x.algorithm()),
+                        x.parameters().map(|v| v.to_vec()).unwrap_or_default(),
+                    )
+                }),
+                key: p.key.as_bytes().to_vec(),
+                user_hash: p.user_hash.as_ref().map(|h| h.hash().to_vec()),
+                integrity: p.integrity,
+            }),
+            marked: self.validator.verif_marked(),
+        }
+    }
+}
+
 #[cfg(test)]
 mod long_term_cred_mech_tests {
     use enumflags2::{make_bitflags, BitFlags};
